@@ -8,6 +8,8 @@ from ..exact import fzero, finf, fninf, fnan, raw_json as J, raw_unjson as U
 
 ID = "C09"
 LEVEL = "exploration"
+CASE_TIMEOUT = 30.0          # each case is a micro/milli-second integer kernel
+HANG_IS_VIOLATION = True
 RULE = ("from-float cases: doubles from hypothesis' float strategy plus boundary doubles (max, min normal, "
         "subnormals, +-0.0, 2^k+-1ulp, inf, nan), as float and as complex, through mpf()/mpc() at context precisions "
         ">= 53 and mpmathify at any precision; oracle Fraction(f) == exact value of the raw result. to-float cases: "
